@@ -488,27 +488,49 @@ func c02FlagsPosition(c *Ctx, tr *an.Tracer, rule string) {
 		for _, cs := range an.CallsNamed(f, side.prim) {
 			prims = append(prims, cs.Instr)
 		}
+		// the encoder reserves the slot of the flags word with a placeholder value while it collects the fields: the
+		// placeholder must be inserted at that same position (a placeholder always put first is wrong for the types
+		// whose flags word is not the first field)
+		for _, cs := range an.CallsNamed(f, "reflect.ValueOf") {
+			if len(cs.Common.Args) == 1 && side.recv == "*Encoder" {
+				if mi, ok := cs.Common.Args[0].(*ssa.MakeInterface); ok {
+					if _, isConst := mi.X.(*ssa.Const); isConst {
+						prims = append(prims, cs.Instr)
+					}
+				}
+			}
+		}
 		if len(prims) == 0 {
 			r.Undecide(rule, side.key, c.pos(f.Pos()), "no "+side.prim+" in "+side.fn)
 			continue
 		}
-		ok := false
-		detail := "no comparison with the FlagIndex() result"
+		// every access is guarded by some comparison with the FlagIndex() result
+		var guards []*an.Cond
 		for _, i := range an.Ifs(f) {
 			cd, cok := an.Classify(i)
 			if !cok || cd.Kind != "eq" {
 				continue
 			}
-			if !(tr.HasOrigin(cd.X, "FlagIndexGetter).FlagIndex") || tr.HasOrigin(cd.Y, "FlagIndexGetter).FlagIndex")) {
-				continue
+			if tr.HasOrigin(cd.X, "FlagIndexGetter).FlagIndex") || tr.HasOrigin(cd.Y, "FlagIndexGetter).FlagIndex") {
+				guards = append(guards, cd)
 			}
-			un := an.Guarded(f, []an.Edge{cd.EdgeWhen(true)}, prims)
-			if len(un) == 0 {
-				ok = true
-				detail = sprintf("%d flags-word access(es) reachable only through the equal edge of the comparison at %s", len(prims), c.pos(i.Cond.Pos()))
-				break
+		}
+		ok := len(guards) > 0
+		detail := "no comparison with the FlagIndex() result"
+		if ok {
+			detail = sprintf("%d flags-word access(es), each reachable only through the equal edge of a comparison with FlagIndex()", len(prims))
+			for _, p := range prims {
+				guarded := false
+				for _, g := range guards {
+					if len(an.Guarded(f, []an.Edge{g.EdgeWhen(true)}, []ssa.Instruction{p})) == 0 {
+						guarded = true
+					}
+				}
+				if !guarded {
+					ok = false
+					detail = sprintf("the flags-word access at %s is reachable without the equal edge of any comparison with FlagIndex(): the word (or its placeholder) is not put at the position the schema gives it", c.pos(p.Pos()))
+				}
 			}
-			detail = sprintf("flags-word access at %s is reachable without the equal edge of the comparison with FlagIndex() at %s", c.pos(un[0].Pos()), c.pos(i.Cond.Pos()))
 		}
 		r.Check(ok, rule, side.key, c.pos(f.Pos()), detail)
 	}
